@@ -44,6 +44,8 @@ def print_closure(prog):
 
 
 def check(prog, run):
+    from . import c03 as _c03e
+    _c03e.check_block_string_terminator(prog, run, "E2")   # = C03.E2: directive arguments are printed as block strings
     check_schema_block_omission(prog, run, "P12")
     from . import c03 as _c03
     _c03.check_indent(prog, run, "I1")   # = C03.I1: block strings of directive arguments are laid out by _indent
